@@ -5,6 +5,7 @@
 //         fmgstart  FMG start-up (maxIterations = 0) over object histories + harness-side nested iteration
 //         hist      a history of (options, setup, solve x n) blocks on ONE object vs fresh objects
 #include <algorithm>
+#include <set>
 #include <csignal>
 #include <fstream>
 
@@ -376,14 +377,24 @@ static void modeHist(const Case& c)
         // fresh-object observations per tuple (setup + solve on a brand-new object)
         std::map<int, Obs> fresh;
         std::map<int, std::string> freshHidden;
+        std::set<int> freshRejected;
         for (auto& b : blocks)
             if (!fresh.count(b.first)) {
-                Cfg k  = tupleCfg(c, b.first);
-                auto s = makeSolver(k);
-                s->setup();
-                s->solve();
-                fresh[b.first]       = observe(*s, k);
-                freshHidden[b.first] = hiddenState(*s);
+                Cfg k = tupleCfg(c, b.first);
+                try {
+                    auto s = makeSolver(k);
+                    s->setup();
+                    s->solve();
+                    fresh[b.first]       = observe(*s, k);
+                    freshHidden[b.first] = hiddenState(*s);
+                }
+                catch (const std::exception&) {
+                    // an option tuple a fresh object REJECTS: on the reused object it must be rejected too, and the object must
+                    // stay usable for the blocks that follow
+                    freshRejected.insert(b.first);
+                    fresh[b.first]       = Obs();
+                    freshHidden[b.first] = "rejected";
+                }
             }
         // the history on ONE object
         Cfg k0 = tupleCfg(c, blocks[0].first);
@@ -405,8 +416,30 @@ static void modeHist(const Case& c)
             }
             else
                 s->setSolution(nullptr);
-            if (blocks[bi].second >= 0)
-                s->setup();
+            const bool expectReject = freshRejected.count(blocks[bi].first) != 0;
+            bool rejected           = false;
+            try {
+                if (blocks[bi].second >= 0)
+                    s->setup();
+            }
+            catch (const std::exception& ex) {
+                rejected = true;
+                trace += "|rejected";
+                if (!expectReject) {
+                    bad     = step + 1;
+                    badWhat = "block" + std::to_string(bi) + ":setup()_threw_on_the_reused_object_only:" + ex.what();
+                    break;
+                }
+            }
+            if (expectReject) {
+                if (!rejected && blocks[bi].second >= 0) {
+                    bad     = step + 1;
+                    badWhat = "block" + std::to_string(bi) + ":options_a_fresh_object_rejects_are_accepted_by_the_reused_object";
+                    break;
+                }
+                step++;
+                continue; // the caller catches the exception, sets other options and goes on with the same object
+            }
             for (int n = 0; n < std::abs(blocks[bi].second); n++) {
                 s->solve();
                 Obs o = observe(*s, k);
